@@ -249,7 +249,8 @@ def run(ctx: Ctx, tier: str) -> Result:
                 if isinstance(tg, ast.Attribute) and tg.attr == "_depth" and not (isinstance(tg.value, ast.Name) and tg.value.id == "self"):
                     ext_writes.append((f, n))
     ac = p.func(BFS + ".Node.add_children")
-    good = [x for x in ext_writes if x[0] is ac and isinstance(x[1], ast.Assign) and norm(x[1].value) == "self._depth + 1"]
+    good = [x for x in ext_writes if x[0] is ac and isinstance(x[1], ast.Assign) and
+            (norm(x[1].value) == "self._depth + 1" or ctx.expand.expand(x[1].value, ac) in (["@self._depth + 1"], ["1 + @self._depth"]))]
     init_ok = all(sf_.name == "__init__" and isinstance(v, ast.Constant) and v.value == 0 for sf_, v, _ in dst)
     if len(good) == 1 and len(ext_writes) == 1 and init_ok:
         lpn = [l for l in paths.enclosing_loops(p, good[0][1], ac)]
